@@ -101,12 +101,13 @@ pub fn judge(
                     format!("expected an error starting with {prefix:?}, got {:?}", text.lines().next().unwrap_or("")),
                 ));
             } else if let Some(line) = w.expect.error_line {
-                let needle = format!("main.abra:{line} ");
+                let file = w.expect.error_file.clone().unwrap_or_else(|| "main.abra".to_string());
+                let needle = format!("{file}:{line} ");
                 let first_frame = text.lines().nth(2).unwrap_or("");
                 if !first_frame.contains(&needle) {
                     out.push(v(
                         "model:wrong-error-location",
-                        format!("expected the error at main.abra:{line}, innermost frame is {first_frame:?}"),
+                        format!("expected the error at {file}:{line}, innermost frame is {first_frame:?}"),
                     ));
                 }
             }
